@@ -110,7 +110,7 @@ func (c *Ctx) Known(dev string) { c.knownSeen[dev]++ }
 // Violation writes a replay file and prints the VIOLATION line.
 func (c *Ctx) Violation(why string, replay interface{}) {
 	c.violations++
-	if c.violations > 25 {
+	if len(c.replayPaths) >= 25 {
 		return // enough replay files; the count is still reported
 	}
 	b, _ := json.MarshalIndent(map[string]interface{}{"property": c.Prop, "why": why, "tier": c.Tier, "seed": c.Seed, "case": replay}, "", " ")
